@@ -375,7 +375,24 @@ class MethodsMixin(object):
                     raise OutOfSubset("dict.get key", node)
                 has = z3.Select(c.keys, key.e)
                 return self.ite(has, wrap(c.ek, z3.Select(c.vals, key.e)), default, st, node)
-            tab = dict(get=m_get)
+            def m_update(ex, st, args, kw, node):
+                c = st.heap[oid]
+                o = args[0]
+                oc = st.heap[o.oid] if isinstance(o, VRef) else None
+                if not isinstance(oc, HDict) or oc.items is not None or c.items is not None or isinstance(c.ek, tuple) \
+                        or c.ek != oc.ek:
+                    raise OutOfSubset("dict.update of this shape", node)
+                k = z3.String(fresh_name("uk"))
+                keys = z3.Lambda([k], z3.Or(z3.Select(c.keys, k), z3.Select(oc.keys, k)))
+                vals = z3.Lambda([k], z3.If(z3.Select(oc.keys, k), z3.Select(oc.vals, k), z3.Select(c.vals, k)))
+                size = None
+                if c.size is not None:
+                    size = z3.Int(fresh_name("size_after_update"))
+                    st.assume(size >= c.size)
+                st.heap[oid] = HDict(c.ek, keys, vals, default=c.default, size=size)
+                return VNone()
+
+            tab = dict(get=m_get, update=m_update)
             if name in tab:
                 return VFun("dict." + name, tab[name])
             return None
